@@ -199,57 +199,63 @@ static ev_src_t *create_src(m_mod_t *mod, m_src_types type, process_cb proc,
     return src;
 }
 
-static int fdcmp(void *my_data, void *node_data) {
-    ev_src_t *src = (ev_src_t *)node_data;
-    int fd = *((int *)my_data);
+/*
+ * Sources are stored in a tree keyed by their own identifying data:
+ * both arguments are sources (see deregister_mod_src() for lookups by key).
+ */
+#define M_CMP(a, b)     (((a) > (b)) - ((a) < (b)))
 
-    return fd - src->fd_src.fd;
+static int fdcmp(void *my_data, void *node_data) {
+    ev_src_t *my = (ev_src_t *)my_data;
+    ev_src_t *src = (ev_src_t *)node_data;
+
+    return M_CMP(my->fd_src.fd, src->fd_src.fd);
 }
 
 static int tmrcmp(void *my_data, void *node_data) {
+    ev_src_t *my = (ev_src_t *)my_data;
     ev_src_t *src = (ev_src_t *)node_data;
-    const m_src_tmr_t *its = (const m_src_tmr_t *)my_data;
 
-    return its->ns - src->tmr_src.its.ns;
+    return M_CMP(my->tmr_src.its.ns, src->tmr_src.its.ns);
 }
 
 static int sgncmp(void *my_data, void *node_data) {
+    ev_src_t *my = (ev_src_t *)my_data;
     ev_src_t *src = (ev_src_t *)node_data;
-    const m_src_sgn_t *sgs = (const m_src_sgn_t *)my_data;
 
-    return sgs->signo - src->sgn_src.sgs.signo;
+    return M_CMP(my->sgn_src.sgs.signo, src->sgn_src.sgs.signo);
 }
 
 static int pathcmp(void *my_data, void *node_data) {
+    ev_src_t *my = (ev_src_t *)my_data;
     ev_src_t *src = (ev_src_t *)node_data;
-    const m_src_path_t *pt = (const m_src_path_t *)my_data;
 
-    return strcmp(pt->path, src->path_src.pt.path);
+    return strcmp(my->path_src.pt.path, src->path_src.pt.path);
 }
 
 static int pidcmp(void *my_data, void *node_data) {
+    ev_src_t *my = (ev_src_t *)my_data;
     ev_src_t *src = (ev_src_t *)node_data;
-    const m_src_pid_t *pid = (const m_src_pid_t *)my_data;
 
-    return pid->pid - src->pid_src.pid.pid;
+    return M_CMP(my->pid_src.pid.pid, src->pid_src.pid.pid);
 }
 
 static int taskcmp(void *my_data, void *node_data) {
+    ev_src_t *my = (ev_src_t *)my_data;
     ev_src_t *src = (ev_src_t *)node_data;
-    const m_src_task_t *tid = (const m_src_task_t *)my_data;
 
-    return tid->tid - src->task_src.tid.tid;
+    return M_CMP(my->task_src.tid.tid, src->task_src.tid.tid);
 }
 
 static int threshcmp(void *my_data, void *node_data) {
+    ev_src_t *my = (ev_src_t *)my_data;
     ev_src_t *src = (ev_src_t *)node_data;
-    const m_src_thresh_t *thr = (const m_src_thresh_t *)my_data;
 
-    long double my_val = (long double)thr->activity_freq
-                         + (long double)thr->inactive_ms;
-    long double their_val = (long double)src->thresh_src.thr.activity_freq
-                            + (long double)src->thresh_src.thr.inactive_ms;
-    return my_val - their_val;
+    const int ret = M_CMP(my->thresh_src.thr.inactive_ms, src->thresh_src.thr.inactive_ms);
+    if (ret != 0) {
+        return ret;
+    }
+    return M_CMP(my->thresh_src.thr.activity_freq, src->thresh_src.thr.activity_freq);
 }
 
 static ev_src_t *process_ps(ev_src_t *this, m_ctx_t *c, int idx, evt_priv_t *evt) {
@@ -394,7 +400,35 @@ int deregister_mod_src(m_mod_t *mod, m_src_types type, void *src_data) {
     M_MOD_ASSERT(mod);
     M_MOD_CONSUME_TOKEN(mod);
 
-    return m_bst_remove(mod->srcs[type], src_data);
+    /* Lookups go through the same comparators used for insertion, that compare sources: wrap the key in one */
+    ev_src_t key = {0};
+    switch (type) {
+    case M_SRC_TYPE_PS:
+    case M_SRC_TYPE_FD:
+        key.fd_src.fd = *((int *)src_data);
+        break;
+    case M_SRC_TYPE_TMR:
+        memcpy(&key.tmr_src.its, src_data, sizeof(m_src_tmr_t));
+        break;
+    case M_SRC_TYPE_SGN:
+        memcpy(&key.sgn_src.sgs, src_data, sizeof(m_src_sgn_t));
+        break;
+    case M_SRC_TYPE_PATH:
+        memcpy(&key.path_src.pt, src_data, sizeof(m_src_path_t));
+        break;
+    case M_SRC_TYPE_PID:
+        memcpy(&key.pid_src.pid, src_data, sizeof(m_src_pid_t));
+        break;
+    case M_SRC_TYPE_TASK:
+        memcpy(&key.task_src.tid, src_data, sizeof(m_src_task_t));
+        break;
+    case M_SRC_TYPE_THRESH:
+        memcpy(&key.thresh_src.thr, src_data, sizeof(m_src_thresh_t));
+        break;
+    default:
+        return -EINVAL;
+    }
+    return m_bst_remove(mod->srcs[type], &key);
 }
 
 int start_task(m_ctx_t *c, ev_src_t *src) {
